@@ -15,6 +15,7 @@ package main
 // against interp.ExecProgram output for programs in the exact subset.
 
 import (
+	"bufio"
 	"bytes"
 	"context"
 	"fmt"
@@ -22,6 +23,7 @@ import (
 	"os"
 	"path/filepath"
 	"runtime"
+	"strconv"
 	"strings"
 	"time"
 
@@ -43,8 +45,9 @@ type c01Pair struct {
 	A      string   `json:"program_a"`
 	B      string   `json:"program_b"`
 	Input  string   `json:"input"`
-	Vars   []string `json:"vars,omitempty"` // Config.Vars (name, value, …)
-	Tags   []string `json:"tags,omitempty"` // facts about the case used by the finding classifier
+	Vars   []string `json:"vars,omitempty"`            // Config.Vars (name, value, …)
+	Tags   []string `json:"tags,omitempty"`            // facts about the case used by the finding classifier
+	OutB   string   `json:"config_output_b,omitempty"` // kind of Config.Output program_b runs with (program_a: bytes.Buffer); see ends.go
 	NonTri bool     `json:"-"`
 }
 
@@ -55,8 +58,27 @@ func c01Parse(src string) (*parser.Program, error) {
 // c01RunProg runs the real interpreter with a deadline: with a mutated compiler or VM a generated program may loop for ever;
 // that must show up as a failing case ("timeout"), not as a hanging harness.
 func c01RunProg(prog *parser.Program, input string, vars ...string) (res vh.RunResult) {
-	var out bytes.Buffer
-	cfg := &interp.Config{Stdin: strings.NewReader(input), Output: &out, Error: io.Discard, Environ: []string{}, Vars: vars}
+	return c01RunProgW(prog, input, "", vars...)
+}
+
+// c01RunProgW: the same with a chosen kind of Config.Output ("" = bytes.Buffer; "plain", "bufio:<size>", "hold-until-Flush" as in
+// ends.go). The harness never flushes it: the interpreter flushes a Config.Output that has a Flush method when execution ends.
+func c01RunProgW(prog *parser.Program, input, writer string, vars ...string) (res vh.RunResult) {
+	var bb bytes.Buffer
+	var plain enPlainW
+	var hold enHoldW
+	cfg := &interp.Config{Stdin: strings.NewReader(input), Output: &bb, Error: io.Discard, Environ: []string{}, Vars: vars}
+	got := func() string { return bb.String() }
+	switch {
+	case writer == "plain":
+		cfg.Output, got = &plain, func() string { return string(plain.b) }
+	case writer == "hold-until-Flush":
+		cfg.Output, got = &hold, func() string { return string(hold.b) }
+	case strings.HasPrefix(writer, "bufio:"):
+		n, _ := strconv.Atoi(writer[6:])
+		cfg.Output, got = bufio.NewWriterSize(&plain, n), func() string { return string(plain.b) }
+	}
+	out := c01Getter(got)
 	defer func() {
 		if r := recover(); r != nil {
 			res.Panic = fmt.Sprint(r)
@@ -80,6 +102,10 @@ func c01RunProg(prog *parser.Program, input string, vars ...string) (res vh.RunR
 	}
 	return res
 }
+
+type c01Getter func() string
+
+func (g c01Getter) String() string { return g() }
 
 func c01Canon(r vh.RunResult) string {
 	return fmt.Sprintf("out=%q status=%d err=%q panic=%q", r.Out, r.Status, r.Err, r.Panic)
@@ -169,6 +195,13 @@ func runC01(c *vh.Ctx) {
 		pairs, nDirected = keep, 0
 	}
 	c.Note(fmt.Sprintf("directed pairs %d, random pairs %d", nDirected, len(rnd)))
+	// the second spelling of every pair runs with a randomly chosen kind of Config.Output (a third of them with the bytes.Buffer the
+	// first spelling always has): what reaches the writer must not depend on its kind, however the program ends
+	for i := range pairs {
+		if k := c.Rng.Intn(len(enWriterKinds) + 4); k > 0 && k < len(enWriterKinds) {
+			pairs[i].OutB = enWriterKinds[k]
+		}
+	}
 
 	type outT struct {
 		a, b       string
@@ -193,7 +226,7 @@ func runC01(c *vh.Ctx) {
 			o.b = "PARSE: " + eb.Error()
 		} else {
 			t := time.Now()
-			o.b, o.okB = c01Canon(c01RunProg(pb, p.Input, p.Vars...)), true
+			o.b, o.okB = c01Canon(c01RunProgW(pb, p.Input, p.OutB, p.Vars...)), true
 			o.db = time.Since(t)
 		}
 		if o.okA && o.okB {
@@ -245,6 +278,11 @@ func runC01(c *vh.Ctx) {
 		if parseBad*20 > len(pairs) {
 			panic("too many generated programs do not parse")
 		}
+	}
+
+	// the complete result (standard output, files, status, error) for every way a program can end, against the reference evaluator
+	if only := os.Getenv("C01_ONLY"); only == "" || only == "ends" {
+		c01Ends(c)
 	}
 
 	// correspondence with the Lean model
